@@ -127,6 +127,9 @@ ConfigPolicies ==
   {CPolicy(d, <<CGroup(<<"read", "write">>, <<CNWC("clone", <<CArg(0, "BitsNotSet", "0x10000000")>>)>>, a)>>) : d \in ActionNames, a \in ActionNames}
   \* every operation x every argument index x every operand
   \cup {CPolicy("allow", <<CGroup(<<>>, <<CNWC("ioctl", <<CArg(i, o, v)>>)>>, "errno")>>) : i \in 0..5, o \in OperationNames, v \in Operands}
+  \* group actions that carry data bits (an errno, a tracer message): valid in memory, without a documented text form; whatever a
+  \* marshalled form of such a policy says, it must not load back as a DIFFERENT policy (a loud refusal is admissible)
+  \cup {CPolicy("allow", <<CGroup(<<"read", "write">>, <<>>, a), CGroup(<<"close">>, <<>>, "errno")>>) : a \in {"errno+38", "errno+13", "errno+1", "trace+7", "trap+2"}}
   \* several conditions / entries / groups
   \cup {CPolicy("errno", <<CGroup(<<"open">>, <<CNWC("ioctl", <<CArg(i, "Equal", v), CArg(5 - i, "GreaterThan", w)>>), CNWC("ioctl", <<CArg(i, "LessOrEqual", w)>>),
                                                 CNWC("write", <<CArg(2, "NotEqual", v)>>)>>, "allow"),
